@@ -363,6 +363,14 @@ def gen_hist(rng):
             else:
                 ops.append(["probe", i, rng.choice(ids)])
         ops.append(["call", a_list()])
+    # the very list object an earlier call was given (reordered by that call), as Module.create_stog does
+    calls = [k for k, op in enumerate(ops) if op[0] == "call" and op[1]]
+    if calls and rng.random() < 0.45:
+        k = rng.choice(calls)
+        at = rng.randrange(k + 1, len(ops) + 1)
+        ops.insert(at, ["recall", k])
+        if rng.random() < 0.4:
+            ops.append(["recall", k])
     if rng.random() < 0.04:
         ops.append(["call", []])
     return {"kind": "hist", "eps": eps, "aeps": aeps, "rects": pool, "ops": ops, "template": template}
@@ -376,10 +384,15 @@ def run_hist_impl(case):
     try:
         objs = [fr.mk_rect(d) for d in case["rects"]]
         steps = []
-        for op in case["ops"]:
+        lists = {}
+        for k, op in enumerate(case["ops"]):
             rec = {}
-            if op[0] == "call":
-                lst = [objs[i] for i in op[1]]
+            if op[0] in ("call", "recall"):
+                if op[0] == "call":
+                    lst = lists[k] = [objs[i] for i in op[1]]
+                else:
+                    lst = lists[op[1]]
+                rec["idxs"] = [next(n for n, o in enumerate(objs) if o is x) for x in lst]
                 pre = [fr.rect_obs(r) for r in objs]
                 try:
                     rec["b"] = bool(create_stog(lst))
@@ -429,9 +442,9 @@ def gnats(l):
     return "[" + "; ".join(str(int(i)) for i in l) + "]%nat"
 
 
-def ghop(op):
-    if op[0] == "call":
-        return f"HCall {gnats(op[1])}"
+def ghop(op, rec=None):
+    if op[0] in ("call", "recall"):
+        return f"HCall {gnats(rec['idxs'])}"
     if op[0] == "move":
         return f"HMove {'Setter' if op[1] == 'setter' else 'InPlace'} {int(op[2])}%nat {gq(op[3])} {gq(op[4])}"
     if op[0] == "resize":
@@ -450,13 +463,13 @@ def hist_to_coq(case, obs):
     steps = []
     for op, rec in zip(case["ops"], obs["steps"]):
         post = glist([fr.grect(d) for d in rec["post"]])
-        if op[0] == "call":
+        if op[0] in ("call", "recall"):
             o = f"OCall {gopt(None if rec['b'] is None else gbool(rec['b']))} {gnats(rec['order'])} {post}"
         elif op[0] == "probe":
             o = f"OProbe {rec['loc']} {gq(rec['ov'])} {post}"
         else:
             o = f"OState {post}"
-        steps.append(f"({ghop(op)}, {o})")
+        steps.append(f"({ghop(op, rec)}, {o})")
     pool = glist([fr.grect(d) for d in case["rects"]])
     return f"hist_check {eps} {aeps} {pool} {glist(steps)}"
 
@@ -464,9 +477,9 @@ def hist_to_coq(case, obs):
 def hist_oracle(case, obs):
     """every call judged on its own, on the geometry read back from the objects just before it"""
     for k, (op, rec) in enumerate(zip(case["ops"], obs["steps"])):
-        if op[0] != "call":
+        if op[0] not in ("call", "recall"):
             continue
-        idxs = op[1]
+        idxs = rec["idxs"]
         sub = {"eps": case["eps"], "aeps": case["aeps"], "rects": [rec["pre"][i] for i in idxs]}
         out = [rec["post"][i] for i in rec["order"]]
         why = oracle_one(sub, {"b": rec["b"], "out": out if rec["b"] is not None else []})
@@ -482,12 +495,20 @@ def hist_oracle(case, obs):
 
 def hist_shrink(case):
     ops = case["ops"]
-    calls = [k for k, op in enumerate(ops) if op[0] == "call"]
+    calls = [k for k, op in enumerate(ops) if op[0] in ("call", "recall")]
     for k in calls[:-1]:
         yield dict(case, ops=ops[:k + 1])
+
+    def without(k):
+        out = []
+        for n, op in enumerate(ops):
+            if n == k or (op[0] == "recall" and op[1] == k):
+                continue
+            out.append(["recall", op[1] - 1] if op[0] == "recall" and op[1] > k else op)
+        return out
     for k in range(len(ops)):
         if ops[k][0] != "new" and len(ops) > 1:
-            yield dict(case, ops=ops[:k] + ops[k + 1:])
+            yield dict(case, ops=without(k))
     for k, op in enumerate(ops):
         if op[0] == "call" and len(op[1]) > 1:
             for j in range(len(op[1])):
@@ -530,7 +551,8 @@ def run(ctx, out, replay=None):
                 "rectangle put in front; prepend / append a fresh one; move an element away in place and back; break first and "
                 "repair in place; a second group and lists mixing the groups; resize; arbitrary roles through the setter) or drawn at "
                 "random (calls on the whole pool, permutations, sub-lists; moves by attribute assignment, += and the centre setter; "
-                "resizes; new rectangles; read-only probes), every object read back after every operation")
+                "resizes; new rectangles; read-only probes; create_stog again on the very list object an earlier call was given), every "
+                "object read back after every operation")
     cases = []
     if replay and "case" in replay:
         cases.append(fr.unjson(replay["case"]))
